@@ -17,6 +17,10 @@ pub struct ContextState { pub status: HealthStatus, pub last_check_millis: u64, 
 pub struct HealthCheckedContext { pub state: ContextState }
 
 impl HealthCheckedContext {
+    pub fn new<T, N>(context: T, name: N) -> (r: Self)
+        ensures r.state.status == HealthStatus::Unknown,   // #a_new_resource_is_unknown_until_its_first_check [C18]
+            runs_inv(r.state, Seq::empty()),   // #a_new_resource_starts_with_empty_runs [C18]
+    //@body HealthCheckedContext::new
     pub fn status(&self) -> (r: HealthStatus)
         ensures r == self.state.status,   // #published_status_is_the_stored_status [C18]
     //@body HealthCheckedContext::status
